@@ -12,7 +12,10 @@ EXPLANATION = (
     "Ok only on the branch where the list of still-required sections is empty and consumes a section only when it is "
     "still required (then removes it); (N-TAGS) the keywords accepted by get_type equal the strings DecType::from maps; "
     "(N-NEST) per parser level the set of accepted section types (decision table over DecType, derived from the "
-    "switch/compare arms that do not return Err) equals the grammar table. Decides the rejection sentence "
+    "switch/compare arms that do not return Err) equals the grammar table; (N-KEYS) the argument-key parser accepts every "
+    "option name the generator reads; (N-NAME) the name -> address pass; (N-WIRE) the four application builders reduced to "
+    "formulas: each slot of the Endpoint(s) and the message / count handed to the application is fed by the declared "
+    "argument of that meaning (local_port -> local.port, to -> remote.address, ...). Decides the rejection sentence "
     "structurally; print/parse round-trip and the behaviour of the generated simulation are not decided.")
 ASSUMPTIONS = ["nom's alt/tag_no_case accept exactly the listed keywords"]
 
